@@ -333,6 +333,24 @@ def check_textdoc(ctx, payloads, in_script):
     return True
 
 
+def check_head_twins(ctx, p):
+    """The same characters once as plain text and once as HTML() in head_content(): different content, both present
+    (the plain one escaped, the trusted one verbatim)."""
+    wit = {"head_twins": p}
+    ctx.count("oracle.head_twins")
+    doc = ht.HTMLDocument(ht.div("b", ht.head_content(p), ht.head_content(ht.HTML(p)), ht.head_content(ht.HTML(p))))
+    out = doc.render()["html"]
+    head = out[out.index("<head>"):out.index("</head>")]
+    listing_end = head.find("</script>") + len("</script>") if "application/html-dependencies" in head else 0
+    rest = head[listing_end:]
+    esc = p.replace("&", "&amp;").replace("<", "&lt;").replace(">", "&gt;")
+    if p and esc != p and (rest.count(p) != 1 or esc not in rest):
+        ctx.violation("trusted-payload-not-verbatim", "plain / HTML() twins in head_content: trusted %r occurs %d times, escaped twin present: %s" % (p[:40], rest.count(p), esc in rest),
+                      dict(wit, head=rest[:600]))
+        return False
+    return True
+
+
 def check_json_pipeline(ctx, payloads):
     """str(tag) in JSON dependency mode, post-processed by HTMLTextDocument: trusted head markup arrives verbatim."""
     import htmltools as _h
@@ -360,6 +378,8 @@ def check_json_pipeline(ctx, payloads):
 
 
 def replay(ctx, w):
+    if "head_twins" in w:
+        return check_head_twins(ctx, w["head_twins"])
     if "json_pipeline_payloads" in w:
         return check_json_pipeline(ctx, w["json_pipeline_payloads"])
     if "payloads" in w:
@@ -445,6 +465,8 @@ def _run(ctx):
         check_textdoc(ctx, ps, insc)
         if rng.random() < 0.5:
             ctx.guard(check_json_pipeline, ctx, ps, witness={"json_pipeline_payloads": ps})
+        if rng.random() < 0.5 and "<" in ps[0] and "\r" not in ps[0]:
+            ctx.guard(check_head_twins, ctx, ps[0], witness={"head_twins": ps[0]})
         ctx.case(("textdoc", ps, insc), nontrivial=any("\\" in p or set(p) & set("&<>") for p in ps))
     ctx.sample({"expr": {"op": "add", "l": {"leaf": "str", "v": "a<b"}, "r": {"leaf": "html", "v": "<i>"}},
                 "value": ("a<b" + ht.HTML("<i>")).as_string()})
